@@ -92,7 +92,7 @@ fn emit(em: &mut Emit, arch: &str, bytes: &[u8], addr: u64, opt: bool) {
 }
 
 fn generate(tier: Tier, rng: &mut Rng, em: &mut Emit) {
-    let scale: u64 = if tier == Tier::Quick { 1 } else { 40 };
+    let scale: u64 = if tier == Tier::Quick { 1 } else { 3 }; // per shard; check runs 8 shards
     for arch in ARCHS.iter() {
         let fixed = !(*arch == "x86" || *arch == "amd64");
         if fixed {
